@@ -1,6 +1,6 @@
 import Nq.Lemmas.SmtpdSrc.Defs
 namespace Nq.SmtpdSrc
-/-- exhaustive kernel evaluation: pos = 3, every flag combination, every byte -/
 set_option maxRecDepth 1000000 in
+/-- exhaustive kernel evaluation: pos = 3, every flag combination, every byte -/
 theorem sliceH_3 : sliceH 3 = true := by decide +kernel
 end Nq.SmtpdSrc
